@@ -1259,6 +1259,15 @@ class Compiler:
                 cur, x = self.ev(ctx, node.args[0], cur)
                 return cur, ("len", x)
             if name == "isinstance" and "isinstance" not in self.extra_stubs:
+                # isinstance(<exception value>, <exception class | tuple of classes | name of such a tuple>): the same match as an except clause
+                if len(node.args) == 2:
+                    try:
+                        names = self.handler_names(node.args[1])
+                    except Unsupported:
+                        names = None
+                    if names and all(isinstance(self.ns.get(n, getattr(builtins, n, None)), type) and issubclass(self.ns.get(n, getattr(builtins, n, None)), BaseException) for n in names):
+                        cur, v = self.ev(ctx, node.args[0], cur)
+                        return cur, ("bool", ("inexc", self.scalar(v), tuple(names)))
                 self.err(node, "isinstance unsupported")
             if name == "set" and not node.args:
                 return self.alloc(ctx, "Set", cur, node)
@@ -1521,9 +1530,16 @@ def p_wait(comp, ctx, node, cur):
     comp.emit(ctx, cur, n, guard=("eq", ("ev.flag", ev), C(1)), updates=[(V(res), C(TRUE))], visible=True, info="Event.wait -> True", node=node, sync="wait")
     if not (timeout == C(NONE)):
         clock = comp.m.var("G.clock", INT0)
-        comp.emit(ctx, cur, n, guard=("and", ("eq", ("ev.flag", ev), C(0)), ("ne", timeout, C(NONE))),
-                  updates=[(V(res), C(FALSE)), (V(clock), ("padd", V(clock), timeout))],
-                  visible=True, kind="timeout", info="Event.wait times out", node=node, sync="wait-timeout")
+        unset = ("and", ("eq", ("ev.flag", ev), C(0)), ("ne", timeout, C(NONE)))
+        zero = ("eq", timeout, C(INT0))
+        if timeout != C(INT0):
+            comp.emit(ctx, cur, n, guard=("and", unset, ("not", zero)),
+                      updates=[(V(res), C(FALSE)), (V(clock), ("padd", V(clock), timeout))],
+                      visible=True, kind="timeout", info="Event.wait times out", node=node, sync="wait-timeout")
+        if timeout[0] != "c" or timeout == C(INT0):
+            # wait(0) is a poll: it returns at once when the flag is not set - no time has to pass, whatever other threads could do
+            comp.emit(ctx, cur, n, guard=("and", unset, zero), updates=[(V(res), C(FALSE))],
+                      visible=True, info="Event.wait(0): not set", node=node, sync="wait-timeout")
     if getattr(comp, "interruptible_thread", None) == ctx.thread:
         # SIGINT: the main thread gets KeyboardInterrupt at its next step; while blocked that step is this wait
         pend = comp.m.var("G.sigint_pending", INT0)
